@@ -54,6 +54,11 @@ Fixpoint seq (p q : prog) : prog :=
   | Draw s k => Draw s (fun x => seq (k x) q)
   end.
 
+(* a guarded draw: the ambient value b (read from the global stream) is used for nothing but deciding whether one value of the SEEDED
+   stream is consumed (e.g. a diagnostic under `if logger.isEnabledFor(DEBUG)` that samples with the search's own random state) *)
+Definition guarded (rest : prog) : prog := Draw SGlobal (fun b => if b =? 0 then rest else Draw SSeeded (fun _ => rest)).
+Definition propose_next : prog := Draw SSeeded (fun x => Emit x Ret).
+
 (* number of values of the seeded stream a run consumes *)
 Fixpoint seeded_used (p : prog) (sd gl : stream) (i j : nat) : nat :=
   match p with
@@ -101,6 +106,10 @@ Definition is_regevo (c : cfg) : bool := match c_search c with RegEvo => true | 
 Definition K_Seeded := 0.    Definition K_Global := 1.  Definition K_CtorSeeded := 2.  Definition K_CtorFresh := 3.
 Definition K_Dist := 4.      Definition K_CS := 5.      Definition K_CSSeed := 6.      Definition K_Ext := 7.
 Definition K_Pass := 8.      Definition K_PassFresh := 9.   Definition K_PassShared := 10.
+Definition K_Guarded := 11.
+(* K_Guarded: a draw from / advance of a seeded stream whose execution is conditional on ambient state of the process (logging level,
+   environment variable, clock, verbosity): the ambient read is a value of the GLOBAL stream (what a second process does not share), so
+   the position of the seeded stream - hence every later proposal - is not a function of the seed alone ([guarded], Lemmas.guarded_refuted) *)
 (* K_PassShared: a shared generator handed to the concurrently running tasks of a Parallel(require="sharedmem"): the thread schedule decides
    which task draws which slice of the stream - not a function of the seed *)
 
